@@ -231,7 +231,15 @@ func checkDeferredOpt(rc *core.RunCtx, cfg Cfg, out *Out, orderMatters bool) (*d
 		for _, pd := range pending {
 			// (only decidable when no group of that object failed: a group that failed may be
 			// the very reason the reference sees the object as invalid)
-			if ref.InvalidObjects[pd.p.Path] && !failed[pd.p.Path] && !pendFailed[pd.p.Path] && pd.p.Data != nil && !pd.p.Data.IsNull() {
+			// (... or of an object below it: its null would have propagated up to here in the
+			// reference, which does not know the membership of groups that were never applied)
+			failedBelow := false
+			for fp := range pendFailed {
+				if fp == pd.p.Path || strings.HasPrefix(fp, pd.p.Path+".") || strings.HasPrefix(fp, pd.p.Path+"[") {
+					failedBelow = true
+				}
+			}
+			if ref.InvalidObjects[pd.p.Path] && !failed[pd.p.Path] && !failedBelow && pd.p.Data != nil && !pd.p.Data.IsNull() {
 				// the object is invalid because of one of its own non-deferred fields: its
 				// groups must never have been started
 				info.OrderProblem = fmt.Sprintf("payload %d (path %q label %q) belongs to an object that is itself invalid (one of its own non-deferred non-null fields failed), yet its deferred group was started and delivered", pd.i, pd.p.Path, pd.p.Label)
